@@ -19,8 +19,15 @@ HELPERS = {
 def self_stores(fn, F):
     P = Prov(fn, F, cut_loops=True); cn = Canon(fn, P)
     out = []
+    from ..prov import strip as _strip
+    def is_self(l, b, i):
+        # `self`, or the receiver of an inlined helper that was handed `self`
+        if l == 1:
+            return True
+        e = _strip(norm(P.local(l, b, i)))
+        return e.k == 'param' and e.name == 'self'
     for b, i, st in fn.stmts():
-        if st['k'] == 'assign' and st['lhs']['l'] == 1 and st['lhs']['p'] and st['lhs']['p'][0] == 'deref':
+        if st['k'] == 'assign' and st['lhs']['p'] and st['lhs']['p'][0] == 'deref' and is_self(st['lhs']['l'], b, i):
             idx = [cn.c(norm(P.local(p['idx'], b, i))) for p in st['lhs']['p'] if isinstance(p, dict) and 'idx' in p]
             fld = [p['name'] for p in st['lhs']['p'] if isinstance(p, dict) and 'f' in p]
             out.append(('.'.join(fld) + ''.join('[%s]' % x for x in idx), I.shorten_vars(cn.c(norm(P.rvalue(st['rv'], b, i, 0))))))
